@@ -1,9 +1,16 @@
 """C19 — a clone is an equal, detached and fully independent line.
 
 For every record type (virtual lines included), stand-alone and connected, with tags of all seven datatypes,
-levels 0-3, fields already read or not:
+levels 0-3, and the three representation states a field can be in when the line is cloned - never read (at level 0 the
+delayed-parsing datatypes are then still stored as strings), all fields read (parsed), or (random cases) a random
+subset of the non-reference fields re-assigned their own written form as a string (accepted at every level, parsed on
+the next read):
   * clone.gfa is None, clone.is_connected() is False, no gfapy.Line is reachable from the clone's fields;
-  * str(clone) == str(original) and clone == original;
+  * str(clone) == str(original) and clone == original and original == clone;
+  * reading is not an edit: both stay true (both directions of ==) after the fields (all of them in the exhaustive
+    cases, a random subset in the random ones) have been read in ONE copy only (the copy is a case parameter), for a
+    second clone taken at that moment, after all fields of both copies have been read, and for the second clone which
+    was never read (signature clone-not-equal-after-read / clone-written-form-differs-after-read);
   * identity graph: no mutable object (list, dict, CIGAR, Operation, Trace, NumericArray, OrientedLine, LastPos,
     FieldArray) reachable through get() from the clone `is` one reachable from the original;
   * an edit script (append / item assignment / pop on every reachable list, key assignment on every dict, attribute
@@ -14,7 +21,12 @@ NOT CHECKED
   * what an edit does to the copy it is applied to (an edit that raises is simply skipped);
   * the Gfa after editing the ORIGINAL (that is C05's business), reference collections of the original;
   * identity of immutable values (str, int, float, bytes/ByteArray, None) and of the stateless Placeholder objects;
-  * clone() of a Gfa (not implemented by the library).
+  * clone() of a Gfa (not implemented by the library);
+  * values which are not in the library's canonical spelling (e.g. JSON without the spaces json.dumps writes): reading
+    such a field re-spells it in the copy which is read (a documented normalisation, C01), so that written form and ==
+    of the two copies differ until the other copy is read too; the documents here use the canonical spelling;
+  * equality of two clones with each other; what assigning a string does to the line itself (a case in which it
+    changes str(line) is dropped).
 """
 from harness import lib
 from harness.props import _misc as M
@@ -24,9 +36,12 @@ RULE = ("exhaustive: 21 kinds of line (H with single and repeated tags, GFA1 S/L
         "placeholder/F/G/O/U/custom record, virtual segment, virtual link, virtual unknown line), each with tags of the 7 "
         "datatypes (two B subtypes), stand-alone and connected, levels 0-3, fields read before cloning or not, the whole edit "
         "script applied to the clone / to the original; random: the same matrix with a random sub-sequence of edits in "
-        "random order. Non-trivial: the line holds at least one mutable value (all but comments).")
+        "random order, 60% of the not-read ones with a random subset of fields re-assigned as strings before cloning, a "
+        "random subset of fields read in one random copy after cloning. Every case: equality and written form again "
+        "after reading one copy only, for a second clone taken then, and after reading both. Non-trivial: the line holds "
+        "at least one mutable value (all but comments).")
 
-TAGS = "ti:i:-5\ttf:f:1.5\ttz:Z:a b\tta:A:x\ttj:J:{\"k\":[1,{\"m\":2}],\"l\":[]}\ttb:B:c,-1,2\tth:H:0AF1\ttF:B:f,1.5,2.5"
+TAGS = "ti:i:-5\ttf:f:1.5\ttz:Z:a b\tta:A:x\ttj:J:{\"k\": [1, {\"m\": 2}], \"l\": []}\ttb:B:c,-1,2\tth:H:0AF1\ttF:B:f,1.5,2.5"
 
 DOC1 = ["H\tVN:Z:1.0\tzz:i:1\t" + TAGS, "H\tzz:i:2", "H\tzz:i:3",
         "S\tA\tACGT\t" + TAGS, "S\tB\t*\tLN:i:5",
@@ -104,6 +119,13 @@ def gen_case(rng, tier, i):
     c = dict(rng.pick(PLAN))
     c["order"] = rng.randrange(10 ** 9)
     c["keep"] = rng.pick([0.2, 0.5, 1.0])
+    # representation state of the fields when the line is cloned, and which copy is read afterwards
+    if not c["touch"] and rng.random() < 0.6:
+        c["assign"] = rng.randrange(10 ** 9)           # fields re-assigned in their string form before cloning
+        c["assign_p"] = rng.pick([0.3, 0.7, 1.0])
+    c["read"] = rng.pick(["clone", "orig"])
+    c["read_p"] = rng.pick([0.3, 0.7, 1.0, 1.0])
+    c["read_seed"] = rng.randrange(10 ** 9)
     return c
 
 
@@ -111,9 +133,14 @@ def nontrivial(case):
     return case["kind"] != "#"
 
 
+def read_side(case):
+    return case.get("read") or case["target"]
+
+
 def tags(case):
-    return [case["kind"], "connected" if case["connected"] else "standalone", "v%d" % case["vlevel"], "touch" if case["touch"] else "untouched",
-            "edit-" + case["target"]]
+    return [case["kind"], "connected" if case["connected"] else "standalone", "v%d" % case["vlevel"],
+            "touch" if case["touch"] else ("assigned-as-strings" if case.get("assign") is not None else "untouched"),
+            "edit-" + case["target"], "read-" + read_side(case)]
 
 
 def signature(case, failure):
@@ -162,6 +189,43 @@ def walk(gfapy, line):
             continue
         rec(n, v, 0)
     return out, lines
+
+
+def fieldnames(line):
+    try:
+        return list(line.positional_fieldnames) + list(line.tagnames)
+    except Exception:
+        return []
+
+
+def read_fields(line, seed=None, p=1.0):
+    """read (get) the fields of the line, all of them or a random subset: a read parses, in place, a value which is
+    still stored in its string form; it is not an edit"""
+    r = lib.Rng(seed) if seed is not None else None
+    for n in fieldnames(line):
+        if r is not None and r.random() >= p:
+            continue
+        try:
+            line.get(n)
+        except Exception:
+            pass
+
+
+def assign_strings(line, seed, p):
+    """re-assign fields their own written form, as a string (the library accepts the string form of any field value and
+    parses it on the next read); reference fields of a connected line cannot be assigned and are skipped"""
+    gfapy = lib.import_gfapy()
+    r = lib.Rng(seed)
+    refs = set(getattr(line.__class__, "REFERENCE_FIELDS", []) or [])
+    for n in fieldnames(line):
+        if n in refs or r.random() >= p:
+            continue
+        try:
+            if isinstance(line.get(n), gfapy.FieldArray):
+                continue        # a tag repeated over several H lines: its written form is not the string of one field
+            line.set(n, line.field_to_s(n))
+        except Exception:
+            pass
 
 
 # ---------------------------------------------------------------------------------------------------- edits
@@ -286,6 +350,14 @@ def oracle(case):
                                   " fields-read" if case["touch"] else "")
     if case["touch"]:
         walk(gfapy, line)
+    elif case.get("assign") is not None:
+        s0 = safe_str(line)
+        assign_strings(line, case["assign"], case.get("assign_p", 1.0))
+        what += " fields-assigned-as-strings"
+        if safe_str(line) != s0:
+            # assigning a field its own written form changed the line: not this property's business, and the line
+            # may no longer be a valid one -> nothing is claimed about this case
+            return []
     s_before = safe_str(line)
     try:
         c = line.clone()
@@ -308,16 +380,42 @@ def oracle(case):
         F.append("clone-unwritable: %s: str(clone) raises (%s), original is %r" % (what, s_clone, s_line))
     elif s_clone != s_line:
         F.append("clone-written-form-differs: %s: original %r clone %r" % (what, s_line, s_clone))
+    def check_equal(sig, stage, x, xname):
+        try:
+            if not (x == line):
+                F.append("%s: %s: %s == original is False %s(%r)" % (sig, what, xname, stage, s_line))
+            elif not (line == x):
+                F.append("%s: %s: original == %s is False %s(%r)" % (sig, what, xname, stage, s_line))
+        except Exception as e:
+            F.append("foreign-exception: %s: == raised %s@%s %s" % (what, e.__class__.__name__, M.innermost_gfapy_frame(e), stage))
+
+    def check_written(stage, x, xname):
+        a, b = safe_str(line), safe_str(x)
+        if a != b:
+            F.append("clone-written-form-differs-after-read: %s: %soriginal %r %s %r" % (what, stage, a, xname, b))
+
+    check_equal("clone-not-equal", "", c, "clone")
+    # ---- reading is not an edit: the clone stays equal when fields (which may still be stored in their string form
+    # in both copies) are read in one copy only, then in both; a clone taken after the read is equal as well
+    side = read_side(case)
+    stage = "after reading fields of the %s only " % ("clone" if side == "clone" else "original")
+    read_fields(c if side == "clone" else line, case.get("read_seed"), case.get("read_p", 1.0))
+    check_equal("clone-not-equal-after-read", stage, c, "clone")
+    check_written(stage, c, "clone")
     try:
-        if not (c == line):
-            F.append("clone-not-equal: %s: clone == original is False (%r)" % (what, s_line))
-        elif not (line == c):
-            F.append("clone-not-equal: %s: original == clone is False (%r)" % (what, s_line))
+        c2 = line.clone()
     except Exception as e:
-        F.append("foreign-exception: %s: == raised %s@%s" % (what, e.__class__.__name__, M.innermost_gfapy_frame(e)))
+        c2 = None
+        F.append("clone-raises-after-read: %s: %s%s" % (what, stage, e.__class__.__name__))
+    if c2 is not None:
+        check_equal("clone-not-equal-after-read", stage + "[second clone, taken now] ", c2, "second clone")
+        check_written(stage + "[second clone, taken now] ", c2, "second clone")
     # ---- identity graph
     mo, _lo = walk(gfapy, line)
     mc, lc = walk(gfapy, c)
+    check_equal("clone-not-equal-after-read", "after reading all fields of both ", c, "clone")
+    if c2 is not None:
+        check_equal("clone-not-equal-after-read", "after reading all fields of the original [second clone, not read] ", c2, "second clone")
     for path, l in lc:
         F.append("clone-references-line: %s: clone.%s is a %s line object" % (what, path, l.record_type))
         break
